@@ -173,6 +173,41 @@ def run(ctx):
                         ls.append(sx.implies(sx.le(q1, q2), sx.le(a1, a2)))
             return ls
 
+        def build_case(Pv, klf):
+            """One symbolic execution for packet size Pv with kl(n) := klf(q(n)). Returns the O3 script."""
+            Al = 8 if Pv >= 64 else 1
+            Tv = Pv - Pv % Al
+            Nmax = Tv // (Al * Al)
+            F = sx.intvar("F", 0, 255 * 56403 * Tv)
+
+            def contract2(exe, target, cargs):
+                envv, nn = cargs
+                e = envv.store[envv.key] if isinstance(envv, Ref) else envv
+                Tq, Alq, WSq = [r.store[r.key] for r in e.fields[:3]]
+                xx = sx.ceil_div(Tq.t, sx.mul(Alq.t, nn.t))
+                return [(sx.TRUE, "ret", Int(klf(sx.div(WSq.t, sx.mul(Alq.t, xx))), "u32"), "")]
+            ex2 = Exec(mir, loop_bound=Nmax + 2)
+            ex2.closure_contract = contract2
+            outs = ex2.call(gen, [Int(F, "u64"), Int(sx.const(Pv), "u16"), Int(WS, "u64")])
+            rets = [o for o in outs if o.kind == "ret"]
+            bad = [o for o in outs if o.kind != "ret"]
+            qof = lambda n_, ws: sx.div(ws, sx.const(Al * -(-Tv // (Al * n_))))
+            KLr = lambda n_: klf(qof(n_, WS))
+            Ktr = sx.ceil_div(F, sx.const(Tv))
+            Zr = sx.ceil_div(Ktr, KLr(Nmax))
+            need = sx.ceil_div(Ktr, Zr)
+            valid = sx.and_(sx.ge(F, sx.const(1)), sx.ge(KLr(Nmax), sx.const(10)), sx.le(Zr, sx.const(255)))
+            wrong = []
+            for o in rets:
+                f = o.value.fields
+                n_ok = sx.FALSE
+                for i in range(1, Nmax + 1):
+                    earlier = sx.and_(*[sx.gt(need, KLr(m)) for m in range(1, i)])
+                    n_ok = sx.or_(n_ok, sx.and_(sx.eq(f[3].t, sx.const(i)), sx.le(need, KLr(i)), earlier))
+                okv = sx.and_(sx.eq(f[0].t, F), sx.eq(f[1].t, sx.const(Tv)), sx.eq(f[4].t, sx.const(Al)), sx.eq(f[2].t, Zr), n_ok)
+                wrong.append(sx.and_(o.cond, sx.not_(okv)))
+            return sx.IntPrinter().script([valid, sx.or_(*([o.cond for o in bad] + wrong))], names)
+
         seen, jobs = {}, []
         for Pv in list(range(1, NB + 1)) + list(range(64, pmax + 1)):
             Al = 8 if Pv >= 64 else 1
@@ -271,6 +306,21 @@ def run(ctx):
                     zb = (b or {}).get("native_hooked", {}).get("release", "").split()
                     r = {"inputs": {"F": model.get("F"), "P": Pv, "WS": model.get("WS"), "WS2": model.get("WS2")}, "Z_small_budget": za, "Z_large_budget": zb,
                          "reproduced_in": ["release"] if len(za) > 3 and len(zb) > 3 and int(zb[3]) > int(za[3]) else []}
+                if what.startswith("O3") and not (r and r["reproduced_in"]):
+                    # the abstract model (KLfun uninterpreted) is not a real input: refine with KL over the concrete table
+                    v2, rs2 = sx.portfolio(build_case(Pv, kl_chain), 180 if not thorough else 900, ("z3", "cvc5"), grace_s=0.1)
+                    secs += max(x.time_s for x in rs2)
+                    if v2 == "unsat":
+                        rep.held(name, "abstract query had a spurious model; proved with KL defined over the concrete Table 2", secs, "smt/refined")
+                        ok3 += 0
+                        continue
+                    if v2 == "sat":
+                        model = next(x.model for x in rs2 if x.status == "sat")
+                        model["P"] = Pv
+                        r = replay_derive(model)
+                    else:
+                        rep.inconclusive(name, "abstract model does not reproduce and the refined query (concrete table) gave %s" % v2, secs, "smt/refined")
+                        continue
                 if r and r["reproduced_in"]:
                     rep.violated(name, "derive P'=%d" % Pv,
                                  "%s fails natively: %s" % (what, {k: r[k] for k in r if k != "native_public_EncoderBuilder"}),
